@@ -23,9 +23,10 @@ Main results
 -/
 import Octave.Lemmas.ClassFrag
 import Octave.Lemmas.Strings
+import Octave.Lemmas.GenFacts
 set_option linter.unusedSimpArgs false
 namespace Octave.C12
-open Octave Octave.Gbnf
+open Octave Octave.Gbnf Octave.GenFacts
 
 /-! ## Characterising facts about the generated data -/
 
@@ -35,22 +36,10 @@ theorem gen_sanitize :
     Gen.sanDigitPrefix = "r_".toList ∧ Gen.sanCollapseFrom = "__".toList ∧ Gen.sanCollapseTo = "_".toList ∧
     Gen.sanStripChars = "_".toList ∧ Gen.sanFallback = "unnamed_field".toList := by decide
 
-theorem gen_escapePairs :
-    Gen.escapePairs = [("\\".toList, "\\\\".toList), ("\"".toList, "\\\"".toList)] := by decide
-
 theorem gen_dispatch :
     Gen.dispatch = [(.req, .required), (.opt, .optional), (.enum, .enum), (.const, .const), (.type, .type),
       (.regex, .regex), (.dir, .dir), (.appendOnly, .list), (.range, .range), (.maxLen, .maxLength),
       (.minLen, .minLength), (.date, .date), (.iso8601, .iso8601)] := by decide
-
-theorem gen_enumConst :
-    Gen.enumQuoteTpl = [.lit "\"".toList, .var 0, .lit "\"".toList] ∧ Gen.enumJoiner = " | ".toList ∧
-    Gen.enumWrapTpl = [.lit "(".toList, .var 0, .lit ")".toList] ∧
-    Gen.constTpl = [.lit "\"".toList, .var 0, .lit "\"".toList] := by decide
-
-/-- `_compile_const` spells booleans and null the OCTAVE way -/
-theorem gen_constSpellings :
-    Gen.constTrue = "true".toList ∧ Gen.constFalse = "false".toList ∧ Gen.constNull = "null".toList := by decide
 
 theorem gen_regex :
     Gen.regexSimpleTpl = [.lit "[".toList, .var 0, .lit "]".toList, .var 1] ∧
@@ -248,22 +237,6 @@ example : sanitize "9x".toList = "r_9x".toList := by decide
 example : sanitize "___".toList = "unnamed_field".toList := by decide
 
 /-! ## `_escape_literal` -/
-
-theorem escapeLiteral_eq (v : Str) : escapeLiteral v = v.flatMap esc1 := by
-  unfold escapeLiteral
-  rw [gen_escapePairs]
-  simp only [List.foldl_cons, List.foldl_nil]
-  have e1 : "\\".toList = ['\\'] := by decide
-  have e2 : "\"".toList = ['"'] := by decide
-  rw [e1, e2, replaceAll_single, replaceAll_single, List.flatMap_assoc]
-  congr 1
-  funext c
-  unfold esc1
-  by_cases h1 : c = '\\'
-  · subst h1; decide
-  · by_cases h2 : c = '"'
-    · subst h2; decide
-    · simp [h1, h2]
 
 /-- **escape_literal_closed.**  For *every* string `v` (quotes, backslashes and raw newlines included),
 the text `"` ++ `_escape_literal(v)` ++ `"` read from between tokens is exactly one literal token, whose
